@@ -140,10 +140,13 @@ def _case(draw, tier):
     fault = {"type": ftype}
     if ftype == "cmdfail":
         fault["k"] = draw(st.integers(1, 5))
-        fault["kind"] = draw(st.sampled_from(["exit1", "stderr-error", "garbage", "exit1-plain", "killed"]))
+        fault["kind"] = draw(st.sampled_from(["exit1", "stderr-error", "garbage", "exit1-plain", "killed", "busy"]))
+        # the refusal persists for retries of the same request
+        fault["sticky"] = draw(st.booleans())
     elif ftype == "queryfail":
         fault["cmd"] = draw(st.sampled_from(QUERY[b]))
-        fault["kind"] = draw(st.sampled_from(["exit1", "stderr-error"]))
+        fault["kind"] = draw(st.sampled_from(["exit1", "stderr-error", "garbage0", "garbage0"]))
+        fault["after_first"] = draw(st.booleans())
     elif ftype == "kill_between":
         fault["k"] = draw(st.integers(1, 4))
     else:
@@ -182,6 +185,12 @@ def enumerate_cases(tier):
             for kind in ("exit1", "stderr-error", "garbage"):
                 yield {"desc": FIXED, "backend": b, "hashing": hashing, "fault": {"type": "cmdfail", "k": k, "kind": kind},
                        "second_round": False}
+    # a status query that fails or answers nonsense while jobs of an earlier invocation are in flight
+    for b in ("slurm", "sge", "lsf"):
+        for cmd in QUERY[b]:
+            for kind in ("exit1", "stderr-error", "garbage0"):
+                yield {"desc": FIXED, "backend": b, "hashing": False, "fault": {"type": "queryfail", "cmd": cmd, "kind": kind},
+                       "second_round": True, "earlier_purged": False}
     # an interruption in a project that already has history: jobs of an earlier invocation finished and were purged
     for b in ("slurm", "sge", "lsf"):
         for k in (1, 2):
@@ -254,7 +263,7 @@ def run_case(case):
         interrupted = True
         if ftype == "cmdfail":
             k = min(fault["k"], max(1, n_planned))
-            sim.faults = [simsched.Fault(sub, base + k, fault["kind"])]
+            sim.faults = [simsched.Fault(sub, base + k, fault["kind"], sticky=bool(fault.get("sticky")))]
             r = proj.gwf_sub(["run"])
             sim.faults = []
             pos = k - 1
@@ -317,6 +326,14 @@ def run_case(case):
         acc_names = [j.name for j in accepted]
         if len(set(acc_names)) != len(acc_names):
             viols.append(Violation({"kind": "duplicate-in-interrupted-run"}, str(acc_names)))
+        # nor does the disturbed run itself give a second job to a target whose earlier job is still in flight
+        earlier_live = {j.name: j for j in sim.submissions()[:before] if not j.ended}
+        for j in accepted:
+            if j.name in earlier_live:
+                viols.append(Violation({"kind": "accepted-job-forgotten", "fault": ftype, "backend": b, "when": "disturbed-run"},
+                                       f"during the run disturbed by {fault}: {j.name} got a second job {j.id} although its job "
+                                       f"{earlier_live[j.name].id} from the earlier invocation is still pending or running"))
+                break
         # spec hashes only for accepted targets (earlier invocation's records stay)
         if case["hashing"]:
             try:
